@@ -261,9 +261,13 @@ class SamplerCore:
             # Remove pool-related attributes that can't be pickled
             if hasattr(self.config, "pool") and self.config.pool is not None:
                 pool_state = self.config.pool
-                self.config.pool = None
-                d["sampler"] = dill.dumps(self)
-                self.config.pool = pool_state
+                # the configuration is a frozen dataclass: detach the pool the
+                # way SamplerConfig.__post_init__ sets its computed defaults
+                object.__setattr__(self.config, "pool", None)
+                try:
+                    d["sampler"] = dill.dumps(self)
+                finally:
+                    object.__setattr__(self.config, "pool", pool_state)
             else:
                 d["sampler"] = dill.dumps(self)
         except Exception as e:
